@@ -20,6 +20,12 @@ use std::io::{BufRead, Write};
 use std::sync::mpsc;
 use std::time::Duration as StdDuration;
 
+thread_local! {
+    /// source file of the last panic on this thread (set by the panic hook): tells a panic of the harness's own
+    /// argument decoding / assertions (`…/harness/src/…`) from a panic raised in the library or in core on its behalf
+    static LAST_PANIC_FILE: std::cell::RefCell<String> = std::cell::RefCell::new(String::new());
+}
+
 fn run_one(line: &str) -> String {
     let toks: Vec<&str> = line.split_whitespace().collect();
     if toks.is_empty() {
@@ -34,14 +40,25 @@ fn run_one(line: &str) -> String {
     match r {
         Ok(Some(s)) => s,
         Ok(None) => "bad-op".to_string(),
-        Err(_) => "panic".to_string(),
+        Err(_) => {
+            let file = LAST_PANIC_FILE.with(|f| f.borrow().clone());
+            if file.contains("/harness/src/") || file.starts_with("src/") {
+                // the harness itself panicked (malformed argument, failed self-check): not an observation of the library
+                "bad-arg".to_string()
+            } else {
+                "panic".to_string()
+            }
+        }
     }
 }
 
 /// Runs every case on a worker thread so that a non-terminating call is reported as `hang`
 /// (the stuck worker is abandoned and a new one is started).
 fn exec_stream() {
-    std::panic::set_hook(Box::new(|_| {}));
+    std::panic::set_hook(Box::new(|info| {
+        let file = info.location().map(|l| l.file().to_string()).unwrap_or_default();
+        LAST_PANIC_FILE.with(|f| *f.borrow_mut() = file);
+    }));
     let hang_ms: u64 = std::env::var("HV_HANG_MS")
         .ok()
         .and_then(|s| s.parse().ok())
